@@ -212,6 +212,31 @@ def build_registry():
     # both wrappers implement compressible Neo-Hooke: siblings of NeoHookeCompressible (used by C12 as well)
     out.append(Model("tt.total_lagrange(neo-hooke S)", "tt", make_tl, moduli=lambda p: (p["mu"], p["lmbda"] + 2 * p["mu"] / 3)))
     out.append(Model("tt.updated_lagrange(neo-hooke sigma)", "tt", make_ul, moduli=lambda p: (p["mu"], p["lmbda"] + 2 * p["mu"] / 3)))
+    # the same two wrappers of the jax backend
+    import jax.numpy as jnp
+
+    def make_tl_jax(r):
+        p = dict(mu=U(r, 0.5, 2), lmbda=U(r, 1, 4))
+
+        @JX.total_lagrange
+        def nh_S(F, mu, lmbda):
+            C = F.T @ F
+            Ci = jnp.linalg.inv(C)
+            J = jnp.linalg.det(F)
+            return mu * (jnp.eye(3) - Ci) + lmbda * jnp.log(J) * Ci
+        return JX.Material(nh_S, **p), p
+
+    def make_ul_jax(r):
+        p = dict(mu=U(r, 0.5, 2), lmbda=U(r, 1, 4))
+
+        @JX.updated_lagrange
+        def nh_sigma(F, mu, lmbda):
+            b = F @ F.T
+            J = jnp.linalg.det(F)
+            return (mu * (b - jnp.eye(3)) + lmbda * jnp.log(J) * jnp.eye(3)) / J
+        return JX.Material(nh_sigma, **p), p
+    out.append(Model("jax.total_lagrange(neo-hooke S)", "jax", make_tl_jax, moduli=lambda p: (p["mu"], p["lmbda"] + 2 * p["mu"] / 3)))
+    out.append(Model("jax.updated_lagrange(neo-hooke sigma)", "jax", make_ul_jax, moduli=lambda p: (p["mu"], p["lmbda"] + 2 * p["mu"] / 3)))
     return out
 
 
